@@ -66,6 +66,7 @@ let show_rec = function
 
 (* ---- ops *)
 type o = P of int list * v | G of int list | R | K of int | C of n     (* C mb: close, reopen with capacity mb *)
+       | B of int * int                                                  (* B (count, seed): a bulk of tiny far items *)
 let parse_ops s =
   if s = "." then [] else
   List.map (fun o -> match split ',' o with
@@ -74,7 +75,14 @@ let parse_ops s =
     | ["r"] -> R
     | ["c"; mb] -> (match n_of_dec_opt mb with Some m -> C m | None -> failwith "op")
     | ["k"; c] -> K (int_of_string c)
+    | ["b"; n; sd] -> B (int_of_string n, int_of_string sd)
     | _ -> failwith "op") (split ';' s)
+(* item i of a bulk, as harness/c04.go bulkItem: key f0|i>>8, i&0xff, seed, 0.. xor node; value of (i*7+seed) mod 17 bytes *)
+let bulk_item node seed i : int list * v =
+  let k = List.init 32 (fun j -> if j = 0 then 0xf0 lor ((i lsr 8) land 0x0f) else if j = 1 then i land 255 else if j = 2 then seed land 255 else 0) in
+  let id = List.map2 (fun a c -> a lxor c) k node in
+  let n = (i * 7 + seed) mod 17 in
+  (id, Short (List.init n (fun j -> (i + j + seed) land 255)))
 let pool ops =
   List.rev (List.fold_left (fun acc o -> match o with
     | P (id, _) | G id -> if List.mem id acc then acc else id :: acc
@@ -103,6 +111,17 @@ let model_run dec (capmb : n) node ops =
           | Err _ -> "err" | Panic -> "panic" in
         (r, step vlen vhead8 dec !y (OPut (b id, x)))
       | G id -> (show_get !y id, step vlen vhead8 dec !y (OGet (b id)))
+      | B (count, seed) ->
+        let acc = ref 0 and cur = ref (Ok !y) in
+        for i = 0 to count - 1 do
+          match !cur with
+          | Ok yy ->
+            let (id, x) = bulk_item node seed i in
+            (match put vlen dec yy.mem (b id) x with Ok ((_, Stored), _) -> incr acc | _ -> ());
+            cur := step vlen vhead8 dec yy (OPut (b id, x))
+          | _ -> ()
+        done;
+        (Printf.sprintf "b%d" !acc, !cur)
       | R -> ("-", step vlen vhead8 dec !y OReopen)
       | K c -> ("-", step vlen vhead8 dec !y (OCrash (nat_ c)))
       | C mb ->
@@ -206,6 +225,7 @@ let c04_monitors (capmb : n) node ops (obs : obs list) : string list =
            if g <> g0 && g <> "nf" then fail "get-changed-by-put-of-other-id" (Printf.sprintf "step=%d id#%d %s->%s" i j g0 g);
            if g <> g0 && g = "nf" && not (over_put id' x) then fail "item-lost-without-prune" (Printf.sprintf "step=%d id#%d" i j)
          | P _ -> ()
+         | B _ -> ()
          | G _ -> if g <> g0 then fail "get-changed-by-get" (Printf.sprintf "step=%d id#%d %s->%s" i j g0 g)
          | R | K _ | C _ ->
            if g <> g0 && g <> "nf" then fail "get-changed-by-reopen" (Printf.sprintf "step=%d id#%d %s->%s" i j g0 g);
@@ -260,6 +280,7 @@ let c05_monitors (capmb : n) node ops (obs : obs list) : string list =
        Hashtbl.replace sizes id len;
        check_prune ((prev.cnt +: n_ len) >: cap) (N.sub (prev.held +: n_ len) (n_ old)) "put"
      | P _ -> ()
+     | B _ -> check_prune (ob.cnt >: cap || prev.cnt >: cap) (if N.ltb prev.held ob.held then ob.held else prev.held) "bulk"
      | G _ -> check_prune false prev.held "get"
      | R | K _ | C _ -> check_prune (rec_n prev >: cap) prev.held "reopen"));
   List.rev !fails
